@@ -192,3 +192,54 @@ fn c07_crc_reader_counter_fragmentation() {
     kani::cover!(total == 4 && counter.stream().calls == 4);
     kani::cover!(total == 4 && counter.stream().calls == 1);
 }
+
+// ===========================================================================
+// C07/C08: sample <-> byte serialisation in both byte orders, all values
+// ===========================================================================
+
+// @harness prop=C07,C08 tier=quick expect=pass timeout=300
+// @units byteorder::LittleEndian::{i8,i16,i24,i32}_to_bytes byteorder::LittleEndian::bytes_to_{i8,i16,i24,i32} byteorder::BigEndian::* byteorder::bytes_to_le byteorder::bytes_to_be
+// @bound every sample value at every byte width (8, 16, 24 bit within range, 32 bit), both byte orders
+// @oracle bytes are the two's complement of the sample at that width in that order (independent shift/mask formula); bytes -> sample inverts it (sign-extended); bytes_to_le/bytes_to_be reverse each sample's bytes or leave them alone
+#[kani::proof]
+#[kani::unwind(6)]
+fn c07_byteorder_all_values() {
+    use crate::byteorder::{BigEndian as BE, Endianness as En, LittleEndian as LE};
+    let v: i32 = kani::any();
+    let u = v as u32;
+    // 32 bit
+    let le = <LE as En>::i32_to_bytes(v);
+    let be = <BE as En>::i32_to_bytes(v);
+    assert!(le[0] == u as u8 && le[1] == (u >> 8) as u8 && le[2] == (u >> 16) as u8 && le[3] == (u >> 24) as u8);
+    assert!(be[3] == le[0] && be[2] == le[1] && be[1] == le[2] && be[0] == le[3]);
+    assert!(<LE as En>::bytes_to_i32(le) == v && <BE as En>::bytes_to_i32(be) == v);
+    // 24 bit
+    if v >= -(1 << 23) && v < (1 << 23) {
+        let le = <LE as En>::i24_to_bytes(v);
+        let be = <BE as En>::i24_to_bytes(v);
+        assert!(le[0] == u as u8 && le[1] == (u >> 8) as u8 && le[2] == (u >> 16) as u8);
+        assert!(be[2] == le[0] && be[1] == le[1] && be[0] == le[2]);
+        assert!(<LE as En>::bytes_to_i24(le) == v && <BE as En>::bytes_to_i24(be) == v);
+    }
+    // 16 bit
+    let s = v as i16;
+    let le = <LE as En>::i16_to_bytes(s);
+    let be = <BE as En>::i16_to_bytes(s);
+    assert!(le[0] == u as u8 && le[1] == (u >> 8) as u8 && be[0] == le[1] && be[1] == le[0]);
+    assert!(<LE as En>::bytes_to_i16(le) == s && <BE as En>::bytes_to_i16(be) == s);
+    // 8 bit
+    let b = v as i8;
+    assert!(<LE as En>::i8_to_bytes(b)[0] == u as u8 && <BE as En>::i8_to_bytes(b)[0] == u as u8);
+    assert!(<LE as En>::bytes_to_i8([u as u8]) == b && <BE as En>::bytes_to_i8([u as u8]) == b);
+    // in-place conversion of a 2-sample buffer at width 3
+    let raw: [u8; 6] = kani::any();
+    let mut x = raw;
+    <LE as En>::bytes_to_be(&mut x, 3);
+    assert!(x[0] == raw[2] && x[1] == raw[1] && x[2] == raw[0] && x[3] == raw[5] && x[5] == raw[3]);
+    let mut y = raw;
+    <LE as En>::bytes_to_le(&mut y, 3);
+    assert!(y[0] == raw[0] && y[5] == raw[5]);
+    let mut z = raw;
+    <BE as En>::bytes_to_le(&mut z, 3);
+    assert!(z[0] == raw[2] && z[2] == raw[0] && z[3] == raw[5]);
+}
